@@ -198,3 +198,27 @@ Proof. exact apply_receive_credits. Qed.
 Theorem C01_source_apply_receive_refusal : forall g m amt e eff,
   ZV.gen.PureFunds.applyReceive g m amt = (e, eff) -> e <> 0 -> eff = None.
 Proof. exact apply_receive_refusal. Qed.
+
+(* the steps of the invariant ARE the source: the hand model's apply_send / user_receive (the functions the induction over
+   histories above is about) against the translated vm.applySend / vm.applyReceive / SubBalance / AddBalance, the
+   translation's inputs instantiated with what the model reads *)
+Theorem C01_apply_send_is_the_source : forall s h from to z v gm vs,
+  hash_used h s = false ->
+  let b := get_bal (from, z) (bal s) in
+  let vok := (gm =? Err_constants_ErrNotContractAddress) || ((gm =? 0) && (vs =? 0)) in
+  match apply_send s h from to z v vok with
+  | inl s' =>
+      ZV.gen.PureFunds.applySend gm vs z b 0 v = GoSem.Ok (0, Some v) /\
+      ZV.gen.PureFunds.SubBalance v b 0 0 = GoSem.Ok (Some (get_bal (from, z) (bal s')))
+  | inr e =>
+      if e =? E_METHOD then exists c, c <> 0 /\ ZV.gen.PureFunds.applySend gm vs z b 0 v = GoSem.Ok (c, None)
+      else if e =? E_INSUFFICIENT then ZV.gen.PureFunds.applySend gm vs z b 0 v = GoSem.Ok (Err_constants_ErrInsufficientBalance, None)
+      else ZV.gen.PureFunds.applySend gm vs z b 0 v = GoSem.Ok (0, Some v) /\ ZV.gen.PureFunds.SubBalance v b 0 0 = GoSem.Panic
+  end.
+Proof. exact apply_send_is_source. Qed.
+Theorem C01_user_receive_is_the_source : forall enf s a h s',
+  user_receive enf s a h = (s', ROk true) ->
+  exists sd, find_send h (sends s) = Some sd /\
+    ZV.gen.PureFunds.applyReceive 0 0 (s_amt sd) = (0, Some (s_amt sd)) /\
+    ZV.gen.PureFunds.AddBalance (s_amt sd) (get_bal (a, s_zts sd) (bal s)) 0 0 = GoSem.Ok (Some (get_bal (a, s_zts sd) (bal s'))).
+Proof. exact user_receive_is_source. Qed.
